@@ -57,9 +57,9 @@ func RegtestLike() *chaincfg.Params {
 // FixedTime is a MedianTimeSource returning a constant.
 type FixedTime struct{ T time.Time }
 
-func (f *FixedTime) AdjustedTime() time.Time          { return f.T }
-func (f *FixedTime) AddTimeSample(string, time.Time)  {}
-func (f *FixedTime) Offset() time.Duration            { return 0 }
+func (f *FixedTime) AdjustedTime() time.Time         { return f.T }
+func (f *FixedTime) AddTimeSample(string, time.Time) {}
+func (f *FixedTime) Offset() time.Duration           { return 0 }
 
 // Now is the adjusted time every lab chain believes in (fixed => deterministic).
 var Now = time.Unix(1_600_000_000, 0)
@@ -151,6 +151,25 @@ func (c *Chain) open(create bool) error {
 		}
 	})
 	return nil
+}
+
+// NewChainP is NewChain that publishes the *Chain through out before the
+// database/chain are opened, so that a caller that recovers from a panic raised
+// inside blockchain.New (crash injection) can still close and remove it.
+func NewChainP(params *chaincfg.Params, opts ChainOpts, out **Chain) error {
+	n := atomic.AddInt64(&dirSeq, 1)
+	dir := fmt.Sprintf("%s/verif-%d-%d", ShmRoot(), os.Getpid(), n)
+	os.RemoveAll(dir)
+	c := &Chain{Dir: dir, Params: params, Opts: opts}
+	*out = c
+	return c.open(true)
+}
+
+// ReopenWith is Reopen with new options (e.g. a different database wrapper).
+func (c *Chain) ReopenWith(opts ChainOpts) error {
+	c.Opts = opts
+	c.Notes = nil
+	return c.open(false)
 }
 
 // CloseDB closes the database without flushing the utxo cache (an "unclean"
